@@ -603,6 +603,22 @@ def director_main():
     os._exit(0)
 
 
+def _group_alive(pgid):
+    """is any process of the group still running (zombies waiting to be reaped do not count)"""
+    for d in os.listdir('/proc'):
+        if not d.isdigit():
+            continue
+        try:
+            with open(f'/proc/{d}/stat') as f:
+                st = f.read()
+            rest = st[st.rindex(')') + 2:].split()
+            if int(rest[2]) == pgid and rest[0] != 'Z':
+                return True
+        except (OSError, ValueError, IndexError):
+            continue
+    return False
+
+
 def run_director(case, repo_src, timeout):
     """called from a scenario's run_case (in a pool worker): run one case in a fresh interpreter in
     its own session, kill the whole group afterwards.  -> (result dict | None, status)"""
@@ -626,6 +642,12 @@ def run_director(case, repo_src, timeout):
         p.wait(timeout)
     except subprocess.TimeoutExpired:
         status = 'timeout'
+    if status == 'ok':
+        # give the group's helper processes (multiprocessing resource trackers, which unlink the named
+        # semaphores / shared memory the killed-by-exit processes left behind) a moment to finish
+        t_end = time.monotonic() + 3.0
+        while time.monotonic() < t_end and _group_alive(p.pid):
+            time.sleep(0.03)
     try:
         os.killpg(p.pid, signal.SIGKILL)
     except Exception:  # noqa
